@@ -297,6 +297,10 @@ def check_c02(ctx):
     # modifier characters right after the marker: without MODIFIERS (and INTERMEDIATE, which implies it) they start the name
     for t in ["@flour{1} and @&flour{100%g}\n", "#&pan{} and #?lid{}\n", "@?salt{} @+a{} @-b{}\n", "@@x{} ~&rest{5%min}\n", "@&(1)dough{} well\n"]:
         conv_docs.append(dict(text=t, ext=[], conv="bundled", lacking=EXT_BITS["MODIFIERS"] | EXT_BITS["INTERMEDIATE"], uses=["MODIFIERS"], src="modifier-chars"))
+    # behind a front matter a `>>` line with a plain key is step text under every subset (only bracketed keys are entries, with MODES)
+    for t in ["---\ntitle: x\n---\n>> note: serve hot\n@a{1}\n", "---\nservings: 2\n---\nMix @a{1}\n\n>> servings: 4\n\nand @b{2}\n",
+              "---\nk: v\n---\n>> k: w\n\nstep\n", "---\n---\n>> source: book\nstep\n"]:
+        conv_docs.append(dict(text=t, ext=[], conv="bundled", lacking=0, uses=[], src="frontmatter-then-entry"))
     # `|` in a name, once, twice, at either end: without ALIAS it is an ordinary character of the name
     for t in ["@white wine|wine{}\n", "@white wine|wine|vino{}\n", "#pot|pan|wok{} and #lid|cover\n", "@a||b{1}\n", "@|a{} @b|{}\n", "~rest|wait{5%min} @x|y|z\n"]:
         conv_docs.append(dict(text=t, ext=[], conv="bundled", lacking=EXT_BITS["ALIAS"], uses=["ALIAS"], src="pipes"))
